@@ -18,6 +18,7 @@ import OpmVerif.Proofs.LexMirror
 import OpmVerif.Proofs.RawKw
 import OpmVerif.Proofs.Relayout
 import OpmVerif.Proofs.Deck
+import OpmVerif.Proofs.IncStack
 
 namespace OpmVerif.Props.C01
 open OpmVerif.Lex OpmVerif.Tok OpmVerif.Scan OpmVerif.RawKw OpmVerif.Deck OpmVerif.DeckWrite
@@ -569,5 +570,86 @@ example : parseDeckText demoConv demoTable (fun _ => false)
   decide +kernel
 
 end deck_level
+
+
+/-! ### the input stack: a file read several times, ENDINC, nested chains, the recursion check
+
+`IncStack.run` is the keyword loop on the stack of open files (frames = canonical path + what
+is still to be read; a file read to its end is popped, ENDINC pops the file it stands in,
+INCLUDE of a path that is on the stack is refused, the check being a walk over the frames).
+`IncStack.Expands files l ks`: the one-piece text of the statements `l` — every INCLUDE
+replaced by what is read of the file, i.e. the statements in front of its first ENDINC — is
+finite and has the keyword sequence `ks`. -/
+
+/-- Splitting over INCLUDE files is sound, for every file system: whenever a layout over
+files is accepted, its keyword sequence is that of the one-piece text — whatever the number
+of times a file is read, whether it is closed by its end or by ENDINC (text behind ENDINC
+included), from whichever parents, at whatever depth. -/
+theorem include_stack_split_sound (files : IncStack.Files) (fuel root : Nat) (items : List IncStack.Item)
+    (ks : List Nat) (h : IncStack.run files fuel [(root, items)] [] = some ks) :
+    IncStack.Expands files items ks := by
+  obtain ⟨rest, hs, hk⟩ := IncStack.run_sound files fuel [(root, items)] [] ks h
+  simp only [List.nil_append] at hk
+  exact hk ▸ IncStack.expandsStack_single hs
+
+/-- Conversely, every layout that HAS a one-piece text is accepted, with exactly the keyword
+sequence of that text: the recursion check never refuses a file that was read before and has
+been closed — by its end or by ENDINC —, however often and from wherever it is read again.
+(`files root = some items`: the root file is what is on disk under its path.) -/
+theorem include_stack_split_complete (files : IncStack.Files) (root : Nat) (items : List IncStack.Item)
+    (ks : List Nat) (hroot : files root = some items) (h : IncStack.Expands files items ks) :
+    ∃ fuel, IncStack.run files fuel [(root, items)] [] = some ks :=
+  IncStack.run_complete_full files root items ks hroot h
+
+/-- The form with an explicit rank (any function that decreases along every INCLUDE in front
+of the first ENDINC of a file with a one-piece text), from which the theorem above follows
+with rank := INCLUDE depth of the one-piece text; the statements of the root frame need not be
+those of a file here. -/
+theorem include_stack_split_complete_ranked (files : IncStack.Files) (rank : Nat → Nat)
+    (hac : IncStack.Acyclic files rank) (root : Nat) (items : List IncStack.Item) (ks : List Nat)
+    (hroot : IncStack.IncsBelow rank root items) (h : IncStack.Expands files items ks) :
+    ∃ fuel, IncStack.run files fuel [(root, items)] [] = some ks :=
+  IncStack.run_complete files rank hac root items ks hroot h
+
+/-- Both directions: the layouts over files that are accepted are exactly those with a
+one-piece text, and the keyword sequences agree. -/
+theorem include_stack_split_iff (files : IncStack.Files) (root : Nat) (items : List IncStack.Item)
+    (ks : List Nat) (hroot : files root = some items) :
+    (∃ fuel, IncStack.run files fuel [(root, items)] [] = some ks) ↔ IncStack.Expands files items ks :=
+  ⟨fun ⟨fuel, h⟩ => include_stack_split_sound files fuel root items ks h,
+   include_stack_split_complete files root items ks hroot⟩
+
+/-- More rounds never change the result of the input stack. -/
+theorem include_stack_rounds_irrelevant (files : IncStack.Files) (fuel : Nat) (st : IncStack.Stack)
+    (deck ks : List Nat) (h : IncStack.run files fuel st deck = some ks) :
+    IncStack.run files (fuel + 1) st deck = some ks :=
+  IncStack.run_mono files fuel st deck ks h
+
+/-- INCLUDE of a file that is being read — in whichever frame of the stack — is refused. -/
+theorem include_stack_recursion_refused (files : IncStack.Files) (n p f : Nat) (r : List IncStack.Item)
+    (st : IncStack.Stack) (deck : List Nat) (h : IncStack.isOpen ((p, r) :: st) f = true) :
+    IncStack.run files (n + 1) ((p, .inc f :: r) :: st) deck = none := by
+  simp [IncStack.run, h]
+
+/-- root: keyword 1, x, keyword 2, mid, keyword 3; mid reads x twice (first and last statement);
+x is closed by ENDINC, and behind the ENDINC stands text that is never read (an INCLUDE of x
+itself among it: the include graph as written has a loop, the statements that are read do not). -/
+def incDemo : IncStack.Files := fun f =>
+  [[.kw 1, .inc 2, .kw 2, .inc 1, .kw 3], [.inc 2, .kw 20, .inc 2], [.kw 10, .endinc, .kw 99, .inc 2]][f]?
+
+example : IncStack.parseFile incDemo 30 0 = some [1, 10, 2, 10, 20, 10, 3] := by decide +kernel
+example : IncStack.Acyclic incDemo (fun f => 2 - f) := by
+  intro f c hf _ g hg
+  rcases f with _ | _ | _ | f <;> simp [incDemo] at hf <;> subst hf <;> simp [IncStack.live] at hg
+  · rcases hg with rfl | rfl <;> decide
+  · subst hg; decide
+example : IncStack.IncsBelow (fun f => 2 - f) 0 [.kw 1, .inc 2, .kw 2, .inc 1, .kw 3] := by
+  intro g hg; simp [IncStack.live] at hg; rcases hg with rfl | rfl <;> decide
+example : IncStack.Expands incDemo [.kw 1, .inc 2, .kw 2, .inc 1, .kw 3] [1, 10, 2, 10, 20, 10, 3] :=
+  include_stack_split_sound incDemo 30 0 _ _ (by decide +kernel)
+example : incDemo 0 = some [.kw 1, .inc 2, .kw 2, .inc 1, .kw 3] := by decide
+-- a file that reads itself, directly or through another one, is refused
+example : IncStack.parseFile (fun f => [[.kw 1, .inc 1], [.kw 2, .inc 0]][f]?) 30 0 = none := by decide +kernel
+example : IncStack.isOpen [(1, []), (0, [.kw 3])] 0 = true := by decide
 
 end OpmVerif.Props.C01
